@@ -398,4 +398,160 @@ theorem sendRequest_ev (s : Streams) (hA : KeysFresh s) (isHead : Bool) (fields 
                 unfold KeysFresh; rw [this]; exact hA
               exact sendRequest_core_ev s1 hA1 id isHead eos fields
 
+-- ===================================================================== send_push_promise
+
+/-- `next_stream_id` of the send half is a locally initiated id (part of the invariant) -/
+def NextLocal (s : Streams) : Prop := ∀ x, s.actions.send.nextStreamId = some x → s.counts.isLocalInit x = true
+
+theorem sendPushPromise_error_eq {s s' : Streams} {p pk pid : Nat} {f : List Hpack.Field} {e : UserError}
+    (h : s.sendPushPromise p pk pid f = (s', .error e)) : s' = s := by
+  unfold Streams.sendPushPromise at h
+  by_cases hp : (!s.actions.send.isPushEnabled) = true
+  · simp only [hp, if_true] at h; cases h; rfl
+  · simp only [hp] at h
+    by_cases hq : (s.stream p).state.isSendClosed = true
+    · simp only [hq, if_true] at h; cases h; rfl
+    · simp only [hq] at h
+      cases hc : Streams.checkHeaders f with
+      | error e' => simp only [hc] at h; cases h; rfl
+      | ok u => simp only [hc] at h; cases h
+
+theorem modStream_counts' (s : Streams) (k : Nat) (f : Stream → Stream) : (s.modStream k f).counts = s.counts := by
+  unfold Streams.modStream; split
+  · rfl
+  · rw [panic_counts]
+
+theorem sendOpenId_ok {s s1 : Streams} {id : Nat} (h : s.sendOpenId = (s1, .ok id)) :
+    s.actions.send.nextStreamId = some id ∧ s1.counts = s.counts ∧ s1.store = s.store := by
+  unfold Streams.sendOpenId at h
+  split at h
+  · cases h
+  · next x hx =>
+    simp only [Prod.mk.injEq, Except.ok.injEq] at h
+    rw [← h.1, ← h.2]
+    exact ⟨hx, rfl, rfl⟩
+
+theorem refSendPushPromise_ev (s : Streams) (hA : KeysFresh s) (hN : NextLocal s) (parent : Nat) (valid : Bool)
+    (fields : List Hpack.Field) : Ev s (s.refSendPushPromise parent valid fields).1 := by
+  unfold Streams.refSendPushPromise Streams.sendReserveLocal
+  split
+  · next s1 e heq => exact .of_fst_eq heq (sendOpenId_ev _)
+  · next s1 pid heq =>
+    refine .trans (.of_fst_eq heq (sendOpenId_ev _)) ?_
+    obtain ⟨hnext, hc1, hst1⟩ := sendOpenId_ok heq
+    have hl1 : s1.counts.isLocalInit pid = true := by rw [hc1]; exact hN pid hnext
+    have hA1 : KeysFresh s1 := by unfold KeysFresh; rw [hst1]; exact hA
+    clear heq hA hN hnext hc1 hst1
+    extract_lets s2
+    have e2 : Ev s1 s2 := by simp only [s2]; ev_auto
+    have hA2 : KeysFresh s2 := by
+      have : s2.store = s1.store := by
+        simp only [s2]; split
+        · rw [panic_store]
+        · rfl
+      unfold KeysFresh; rw [this]; exact hA1
+    have hl2 : s2.counts.isLocalInit pid = true := by
+      have : s2.counts = s1.counts := by
+        simp only [s2]; split
+        · rw [panic_counts]
+        · rfl
+      rw [this]; exact hl1
+    refine .trans e2 ?_
+    clear_value s2
+    clear e2 hA1 hl1
+    generalize hst : Stream.new pid s2.actions.send.initWindowSz s2.recv.initWindowSz = st
+    have hfr : Fresh st := by rw [← hst]; exact fresh_new _ _ _
+    clear hst
+    generalize hins : Store.insert _ _ = ins
+    obtain ⟨store, child⟩ := ins
+    dsimp only
+    have hstore : store = (s2.store.insert st).1 := by rw [hins]
+    have hkk : child = s2.store.nextKey := by
+      have : (s2.store.insert st).2 = s2.store.nextKey := rfl
+      rw [hins] at this; exact this
+    subst hstore hkk
+    clear hins
+    have hnew := insert_get?_new hA2 st
+    generalize hs3 : ({ s2 with store := (s2.store.insert st).1 } : Streams) = s3
+    have hk3 : s2.store.nextKey < s3.store.nextKey := by rw [← hs3]; exact Nat.lt_succ_self _
+    have hget3 : s3.store.get? s2.store.nextKey = some { st with key := s2.store.nextKey } := by rw [← hs3]; exact hnew
+    have hl3 : s3.counts.isLocalInit pid = true := by rw [← hs3]; exact hl2
+    have hstream3 : s3.stream s2.store.nextKey = { st with key := s2.store.nextKey } := stream_of_get? hget3
+    rw [hstream3]
+    split
+    · next e heq =>
+      exfalso
+      have : ({ st with key := s2.store.nextKey } : Stream).state.inner = .idle := hfr.idle
+      unfold State.reserveLocal at heq
+      rw [this] at heq
+      cases heq
+    · next st' u heq =>
+      have hne' : ¬ (st'.inner = .idle ∨ st'.inner = .reservedRemote) := reserveLocal_not_early heq
+      generalize hs4 : (s3.modStream s2.store.nextKey fun st => { st with state := st', isPendingPush := true }) = s4
+      have e4 : Ev s3 s4 := by
+        rw [← hs4]
+        refine modStream_ev _ _ _ (fun x _ => ?_)
+        exact ⟨rfl, rfl, rfl, fun q => by cases q <;> rfl, fun h => absurd h hne', fun _ h _ => h⟩
+      have hget4 : s4.store.get? s2.store.nextKey =
+          some { ({ st with key := s2.store.nextKey } : Stream) with state := st', isPendingPush := true } := by
+        rw [← hs4]
+        exact modStream_get?_self s3 _ (fun st => { st with state := st', isPendingPush := true }) _ hget3 rfl
+      have hne4 : ∀ x, s4.store.get? s2.store.nextKey = some x → ¬ Early x := by
+        intro x hx; rw [hget4] at hx; cases hx; exact hne'
+      have hk4 : s2.store.nextKey < s4.store.nextKey := Nat.lt_of_lt_of_le hk3 e4.ne.nextKey
+      have hl4 : s4.counts.isLocalInit pid = true := by
+        rw [← hs4, modStream_counts']; exact hl3
+      clear hs4
+      split
+      · -- the request was not valid: the reserved entry stays (a quirk of the real code)
+        refine .bracket st hfr (by rw [hs3]; exact e4) ?_
+        intro _; exact hne4
+      · split
+        · next s5 e heq5 =>
+          have h5 : s5 = s4 := sendPushPromise_error_eq heq5
+          subst h5
+          refine .bracket st hfr ?_ ?_
+          · rw [hs3]
+            refine .trans e4 (.trans (.unlink pid) ?_)
+            refine Ev.remove (s2.store.nextKey) (s5.recvBufferLeaked) ?_
+            intro x hx
+            have h' : s5.store.get? s2.store.nextKey = some x := hx
+            rw [hget4] at h'; cases h'
+            exact ⟨hfr.counted, fun q => by have := hfr.fl q; cases q <;> exact this⟩
+          · intro _ x hx
+            exfalso
+            have : ((s5.store.unlink pid).remove s2.store.nextKey).get? s2.store.nextKey = none := remove_get?_self _ _
+            have hx' : ((s5.store.unlink pid).remove s2.store.nextKey).get? s2.store.nextKey = some x := hx
+            rw [this] at hx'; cases hx'
+        · next s5 u5 heq5 =>
+          have e5 : Ev s4 s5 := .of_fst_eq heq5 (sendPushPromise_ev _ _ _ _ _ hl4)
+          have hne5 := (Ev.ne e5).ne _ hk4 hne4
+          have hk5 : s2.store.nextKey < s5.store.nextKey := Nat.lt_of_lt_of_le hk4 e5.ne.nextKey
+          refine .bracket st hfr ?_ ?_
+          · rw [hs3]
+            refine .trans e4 (.trans e5 ?_)
+            ev_auto
+          · intro _
+            refine (Ev.ne ?_).ne _ hk5 hne5
+            ev_auto
+
+-- ===================================================================== clear_queues / recv_eof (`EvT`)
+
+theorem clearQueues_evT (s : Streams) (b : Bool) : EvT s (s.clearQueues b) := by
+  unfold Streams.clearQueues
+  exact .trans (recvClearQueues_evT _ _) (.ev (sendClearQueues_ev _))
+
+theorem eofStream_ev (s : Streams) (id : Nat) :
+    Ev s (s.transition id fun s => ((s.recvRecvEof id).sendHandleError id, ())).1 := by
+  ev_auto
+
+theorem recvEof_evT (s : Streams) (b : Bool) : EvT s (s.recvEof b) := by
+  unfold Streams.recvEof
+  dsimp only
+  refine .trans (.ev ?_) (clearQueues_evT _ _)
+  refine .trans ?_ (storeForEach_ev _ _ (fun s id => eofStream_ev s id))
+  split
+  · exact setMisc_ev _ _ _ _ _ _ ⟨rfl, rfl, rfl, rfl, rfl⟩
+  · exact .refl _
+
 end H2V.Lemmas.ConnCountsP
